@@ -38,6 +38,24 @@ func calleeMatches(cc *ssa.CallCommon, pattern string) bool {
 		if k, ok := a.(*ssa.Const); ok && k.Value != nil && isString(k.Type()) && constant.StringVal(k.Value) == lit {
 			return true
 		}
+		// variadic arguments: constants stored into the varargs array
+		if sl, ok := a.(*ssa.Slice); ok {
+			if al, ok := sl.X.(*ssa.Alloc); ok && al.Referrers() != nil {
+				for _, ref := range *al.Referrers() {
+					ia, ok := ref.(*ssa.IndexAddr)
+					if !ok || ia.Referrers() == nil {
+						continue
+					}
+					for _, r2 := range *ia.Referrers() {
+						if st, ok := r2.(*ssa.Store); ok {
+							if k, ok := st.Val.(*ssa.Const); ok && k.Value != nil && isString(k.Type()) && constant.StringVal(k.Value) == lit {
+								return true
+							}
+						}
+					}
+				}
+			}
+		}
 	}
 	return false
 }
